@@ -72,6 +72,17 @@ Proof.
   - intros H; inversion H; auto.
 Qed.
 
+Lemma all_eholes_spec : forall l, all_eholes l = true <-> Forall (fun p => p = PE_Hole) l.
+Proof.
+  intros l. unfold all_eholes. rewrite forallb_forall, Forall_forall. split; intros H p Hp.
+  - specialize (H p Hp). destruct p; try discriminate. reflexivity.
+  - rewrite (H p Hp). reflexivity.
+Qed.
+
+Lemma rank_ok_spec : forall {A} pidx (idx : list A),
+  rank_ok pidx idx = true <-> (List.length pidx = List.length idx \/ Forall (fun p => p = PE_Hole) pidx).
+Proof. intros. unfold rank_ok. rewrite orb_true_iff, Nat.eqb_eq, all_eholes_spec. tauto. Qed.
+
 Lemma match_e_hole : forall q e, match_e q e PE_Hole = true.
 Proof. destruct e; reflexivity. Qed.
 
@@ -95,8 +106,10 @@ Proof.
   unfold me. induction e using expr_ind'; intros p Hm; destruct p; simpl in Hm; try discriminate;
     try (constructor; fail).
   - (* Read / PRead *)
-    apply andb_true_iff in Hm. destruct Hm as [H1 H2]. constructor.
+    apply andb_true_iff in Hm. destruct Hm as [H12 H3]. apply andb_true_iff in H12. destruct H12 as [H1 H2].
+    constructor.
     + apply match_name_spec; auto.
+    + apply rank_ok_spec; auto.
     + apply zip_all_sound; auto.
   - (* Const / PConst *) apply cval_eqb_eq in Hm. subst. constructor.
   - (* Const / PUSub *)
@@ -127,7 +140,8 @@ Lemma match_e_complete_mut :
 Proof.
   apply MatchE_MatchEs_ind; unfold me; intros; simpl.
   - apply match_e_hole.
-  - apply andb_true_iff. split; [apply match_name_spec; auto | assumption].
+  - apply andb_true_iff. split; [|assumption].
+    apply andb_true_iff. split; [apply match_name_spec; auto | apply rank_ok_spec; auto].
   - apply match_name_spec in m. rewrite m. reflexivity.
   - apply cval_eqb_eq. reflexivity.
   - apply cval_eqb_eq. reflexivity.
